@@ -51,7 +51,7 @@ def roots(seed):
     for name, m, geo in (("2d", m2, geos2[1]), ("3d2", m3a, geos3[1]), ("3d3", m3b, geos3[2])):
         d = dict(m)
         d.update(geo)
-        d.update({"fields": ["temp", "density", "Z"], "payload": "hostile_nonan" if name == "3d2" else "signed", "seed": seed,
+        d.update({"fields": ["temp", "density", "Z"], "payload": "hostile_nonan" if name == "3d2" else ["signed", "huge", "pos"], "seed": seed,
                   "time": scope.rotate(scope.TIMES, seed)[0],
                   "layout": [scope.layouts(len(b), 'idrev')[-1] for b in m["levels"]]})
         s = dict(d)
